@@ -32,8 +32,10 @@ def write_replay(tag, doc):
     return path
 
 FRAME_FILE = re.compile(r'^\s+(/\S+\.go):(\d+)')
+ALT_REPO = os.environ.get("VERIF_REPO", "").rstrip("/")
 def classify_file(f):
     if f.startswith("/repo/"): return "thunder"
+    if ALT_REPO and f.startswith(ALT_REPO + "/"): return "thunder"
     if "/verif/" in f or "/verifharness/" in f or "/.vp/runs/" in f: return "harness"
     return "other"
 
